@@ -5,6 +5,7 @@ CONSTANTS
   Q = 2
   MaxInstr = 10
   MaxFail = 2
+  GatedFinish = FALSE
   Eager = TRUE
   RecoverUsesStatePin = TRUE
   StatusAllListsDirect = TRUE
